@@ -38,7 +38,8 @@ def main():
             finally:
                 sh(["git", "-C", "/repo", "checkout", "--", "."])
                 sh(["git", "-C", "/repo", "clean", "-fdq"])
-            hit = [v for v in verdicts if v[1] == 1 and v[2]]
+            # a detection is exit code 1 together with a VIOLATION line naming the property whose check ran
+            hit = [v for v in verdicts if v[1] == 1 and any(("property=%s " % v[0]) in l for l in v[2])]
             status = "MISSED"
             if hit:
                 status = "DETECTED" + (" (no-failing-input-found)" if all("no-failing-input-found" in l for v in hit for l in v[2]) else " with failing input")
